@@ -364,11 +364,15 @@ def calculate_nd_frequencies(
     frequencies = frequencies.astype(dtype)  # Automatically copy
     frequencies = frequencies[ixgrid]
     if weights is not None:
-        counts, _ = np.histogramdd(data, edges)
-        if counts[ixgrid].sum() == data.shape[0]:
-            missing = 0  # (The difference below would only be a rounding residue)
-        else:
-            missing = weights.sum() - frequencies.sum()
+        # The weight of the rows that fell into no cell (summed directly: a difference of
+        # the totals leaves rounding residues and cancels small weights next to large ones)
+        inside = np.ones(data.shape[0], dtype=bool)
+        for i, (axis_edges, mask) in enumerate(edges_and_mask):
+            # (Same rule as numpy.histogramdd: left-closed bins, the very last edge included)
+            index = np.searchsorted(axis_edges, data[:, i], side="right")
+            index[data[:, i] == axis_edges[-1]] -= 1
+            inside &= np.isin(index - 1, mask)
+        missing = weights[~inside].sum()
         err_freq, _ = np.histogramdd(data, edges, weights=weights**2)
         errors2 = err_freq[ixgrid].astype(dtype)  # Automatically copy
     else:
